@@ -1,5 +1,6 @@
 SPECIFICATION TSpec
 CONSTANTS
+ MaxUpdates = 50
  MaxReinit = 5  FixLostWorker = TRUE
  CountCalls = TRUE
  NW <- TrNW  BS <- TrBS  Total <- TrTotal  Chunk = 16384  Timeout <- TrTimeout  Spurious = TRUE  MayFail = TRUE
